@@ -57,8 +57,13 @@ def rule_shift(rep, tname, m):
         else:
             writers = sorted({mname for mname, _ in sf.get(F, [])})
             st = m["post_shift_stores"].get(F)
+            if st is None:
+                # the offset was saved in a local (A evaluates to the field's value on entry) and the field re-assigned *before* the shift:
+                # the same hand-over, written in the other order.  What counts is the value the field holds when the call ends.
+                st = sh.get("fields_at", {}).get(F)
+            fin_ = m["final"].fields.get(F)
             ok_writers = set(writers) <= {"process_into_buffer", "reset"}
-            ok_store = st is not None and nbit(st) == nbit(X)
+            ok_store = st is not None and nbit(st) == nbit(X) and fin_ is not None and nbit(fin_) == nbit(X)
             verdict = ok_writers and ok_store
             why = ("(i) offset field `%s`: written by %s (allowed: process_into_buffer, reset); assigned after the shift from `%s` (load length `%s`)"
                    % (F, writers, show(st), show(X)))
